@@ -72,8 +72,10 @@ Print Assumptions value_determined_by_frame_and_urls.
    the pinned getUrls misses an @page rule's own declarations and URLs nested in function values *)
 Theorem getUrls_pinned_refuted_page : exists sh, getUrls_pinned sh <> import_hrefs sh ++ doc_order_urls sh.
 Proof. exact pinned_misses_page_style. Qed.
+Print Assumptions getUrls_pinned_refuted_page.
 Theorem getUrls_pinned_refuted_nested : exists sh, getUrls_pinned sh <> import_hrefs sh ++ doc_order_urls sh.
 Proof. exact pinned_misses_nested_url. Qed.
+Print Assumptions getUrls_pinned_refuted_nested.
 
 (* "Any URL string (spaces, quotes, parentheses, commas, semicolons, non-ASCII; no backslash or
    newline) ... is serialised so that re-parsing returns the identical string."
